@@ -214,14 +214,14 @@ def control_record_v2(marker_type, coordinator_epoch=0):
     return struct.pack(">hh", 0, marker_type), struct.pack(">hi", 0, coordinator_epoch)
 
 
-def encode_control_batch(base_offset, pid, epoch, commit, timestamp=0, coordinator_epoch=0, key_extra=b""):
+def encode_control_batch(base_offset, pid, epoch, commit, timestamp=0, coordinator_epoch=0, key_extra=b"", attrs_extra=0):
     """key_extra: bytes appended to the marker key (a newer key version may carry more fields; readers look at
     version and type only)"""
     k, v = control_record_v2(1 if commit else 0, coordinator_epoch)
     k = k + bytes(key_extra)
     return encode_v2([{"timestamp": timestamp, "key": k, "value": v, "headers": []}],
                      base_offset=base_offset, transactional=True, control=True, pid=pid,
-                     epoch=epoch, base_seq=-1)
+                     epoch=epoch, base_seq=-1, attrs_extra=attrs_extra)
 
 
 def decode_v2(buf):
